@@ -10,18 +10,24 @@ handshake case to the driver `c10` (`dd <kind> <ok> <ops>`) and compares.
 namespace O4.C10
 
 inductive Op
-  | arm      -- `SetDeadline(t)`, t ≠ zero                       'a'
-  | clear    -- `SetDeadline(time.Time{})` / `SetReadDeadline(time.Time{})`   'c'
-  | rarm     -- `SetReadDeadline(t)`, t ≠ zero (obfs4 server close delay)     'r'
+  | arm      -- `SetDeadline(t)`, t ≠ zero: arms the read AND the write half          'a'
+  | clear    -- `SetDeadline(time.Time{})`: clears both halves                         'c'
+  | rarm     -- `SetReadDeadline(t)`, t ≠ zero (obfs4 server close delay)              'r'
+  | rclear   -- `SetReadDeadline(time.Time{})`: clears the read half only              'e'
+  | warm     -- `SetWriteDeadline(t)`, t ≠ zero                                        'w'
+  | wclear   -- `SetWriteDeadline(time.Time{})`: clears the write half only            'v'
   | close    -- 'x'
-  | read     -- a `Read` call                                    'R'
-  | write    -- a `Write` call                                   'W'
+  | read     -- a `Read` call                                                          'R'
+  | write    -- a `Write` call                                                         'W'
 deriving DecidableEq, Repr
 
 def Op.ofChar : Char → Option Op
   | 'a' => some .arm
   | 'c' => some .clear
   | 'r' => some .rarm
+  | 'e' => some .rclear
+  | 'w' => some .warm
+  | 'v' => some .wclear
   | 'x' => some .close
   | 'R' => some .read
   | 'W' => some .write
@@ -30,8 +36,24 @@ def Op.ofChar : Char → Option Op
 def parseOps (s : String) : Option (List Op) := s.toList.mapM Op.ofChar
 
 def Op.isDeadline : Op → Bool
-  | .arm | .clear | .rarm => true
+  | .arm | .clear | .rarm | .rclear | .warm | .wclear => true
   | _ => false
+
+/-- the deadline state of a `net.Conn`: (read half armed, write half armed) -/
+abbrev Halves := Bool × Bool
+
+/-- effect of one operation on the two halves -/
+def Halves.step (h : Halves) : Op → Halves
+  | .arm => (true, true)
+  | .clear => (false, false)
+  | .rarm => (true, h.2)
+  | .rclear => (false, h.2)
+  | .warm => (h.1, true)
+  | .wclear => (h.1, false)
+  | _ => h
+
+/-- the halves left armed after a trace (a fresh conn has none) -/
+def finalHalves (ops : List Op) : Halves := ops.foldl Halves.step (false, false)
 
 /-- the deadline operations of a trace, in order -/
 def dls (ops : List Op) : List Op := ops.filter Op.isDeadline
